@@ -69,34 +69,34 @@ Definition lists_exactly_b (g : vgraph) (t : types) (p : package) : bool :=
   end.
 
 (** * The tree a validator entity denotes (resource-free fragment: [None] below a resource) *)
+Definition spec_vt_body (U : vval -> option vtree) (g : vgraph) (v : vval) : option vtree :=
+  match v with
+  | WPrim p => Some (VTPrim p)
+  | WRef d =>
+    match node_of g d with
+    | Some (NDef x) =>
+      match x with
+      | WDPrim p => Some (VTPrim p)
+      | WDRecord fs => option_map VTRecord (map_snd U fs)
+      | WDVariant cs => option_map VTVariant (map_snd (omap U) cs)
+      | WDList x => option_map VTList (U x)
+      | WDFsl x n => option_map (fun y => VTFsl y n) (U x)
+      | WDTuple l => option_map VTTuple (all_some (map U l))
+      | WDFlags l => Some (VTFlags l)
+      | WDEnum l => Some (VTEnum l)
+      | WDOption x => option_map VTOption (U x)
+      | WDResult o e => match omap U o, omap U e with Some o', Some e' => Some (VTResult o' e') | _, _ => None end
+      | WDFuture o => option_map VTFuture (omap U o)
+      | WDStream o => option_map VTStream (omap U o)
+      | WDOwn _ | WDBorrow _ | WDMap _ _ => None
+      end
+    | _ => None
+    end
+  end.
 Fixpoint spec_vt (fuel : nat) (g : vgraph) (v : vval) : option vtree :=
   match fuel with
   | O => None
-  | S f =>
-    let U := spec_vt f g in
-    match v with
-    | WPrim p => Some (VTPrim p)
-    | WRef d =>
-      match node_of g d with
-      | Some (NDef x) =>
-        match x with
-        | WDPrim p => Some (VTPrim p)
-        | WDRecord fs => option_map VTRecord (map_snd U fs)
-        | WDVariant cs => option_map VTVariant (map_snd (omap U) cs)
-        | WDList x => option_map VTList (U x)
-        | WDFsl x n => option_map (fun y => VTFsl y n) (U x)
-        | WDTuple l => option_map VTTuple (all_some (map U l))
-        | WDFlags l => Some (VTFlags l)
-        | WDEnum l => Some (VTEnum l)
-        | WDOption x => option_map VTOption (U x)
-        | WDResult o e => match omap U o, omap U e with Some o', Some e' => Some (VTResult o' e') | _, _ => None end
-        | WDFuture o => option_map VTFuture (omap U o)
-        | WDStream o => option_map VTStream (omap U o)
-        | WDOwn _ | WDBorrow _ | WDMap _ _ => None
-        end
-      | _ => None
-      end
-    end
+  | S f => spec_vt_body (spec_vt f g) g v
   end.
 
 Definition spec_ft (fuel : nat) (g : vgraph) (v : vid) : option ftree :=
@@ -109,31 +109,35 @@ Definition spec_ft (fuel : nat) (g : vgraph) (v : vid) : option ftree :=
   | _ => None
   end.
 
+Definition spec_inst (U : vent -> option tree) (g : vgraph) (i : vid) : option (list (str * tree)) :=
+  match node_of g i with Some (NInst ex) => map_snd U ex | _ => None end.
+Definition spec_comp (U : vent -> option tree) (g : vgraph) (c : vid) : option (list (str * tree) * list (str * tree)) :=
+  match node_of g c with
+  | Some (NComp im ex) => match map_snd U im, map_snd U ex with Some a, Some b => Some (a, b) | _, _ => None end
+  | _ => None
+  end.
+Definition spec_mod (g : vgraph) (m : vid) : option moduletype :=
+  match node_of g m with Some (NMod (Some mt)) => Some mt | _ => None end.
+Definition spec_tree_body (U : vent -> option tree) (fuel : nat) (g : vgraph) (e : vent) : option tree :=
+  match e with
+  | EModule m => option_map XMod (spec_mod g m)
+  | EFunc v => option_map XFunc (spec_ft fuel g v)
+  | EValue v => option_map XValue (spec_vt fuel g v)
+  | EInstance i => option_map XInst (spec_inst U g i)
+  | EComponent c => option_map (fun ie => XComp (fst ie) (snd ie)) (spec_comp U g c)
+  | EType _ cr =>
+    match node_of g cr with
+    | Some (NDef _) => option_map XTValue (spec_vt fuel g (WRef cr))
+    | Some (NFunc _ _ _) => option_map XTFunc (spec_ft fuel g cr)
+    | Some (NInst _) => option_map XTInst (spec_inst U g cr)
+    | Some (NComp _ _) => option_map (fun ie => XTComp (fst ie) (snd ie)) (spec_comp U g cr)
+    | _ => None
+    end
+  end.
 Fixpoint spec_tree (fuel : nat) (g : vgraph) (e : vent) : option tree :=
   match fuel with
   | O => None
-  | S f =>
-    let items := map_snd (spec_tree f g) in
-    let inst i := match node_of g i with Some (NInst ex) => items ex | _ => None end in
-    let comp c := match node_of g c with
-                  | Some (NComp im ex) => match items im, items ex with Some a, Some b => Some (a, b) | _, _ => None end
-                  | _ => None
-                  end in
-    match e with
-    | EModule m => match node_of g m with Some (NMod (Some mt)) => Some (XMod mt) | _ => None end
-    | EFunc v => option_map XFunc (spec_ft fuel g v)
-    | EValue v => option_map XValue (spec_vt fuel g v)
-    | EInstance i => option_map XInst (inst i)
-    | EComponent c => option_map (fun ie => XComp (fst ie) (snd ie)) (comp c)
-    | EType _ cr =>
-      match node_of g cr with
-      | Some (NDef _) => option_map XTValue (spec_vt fuel g (WRef cr))
-      | Some (NFunc _ _ _) => option_map XTFunc (spec_ft fuel g cr)
-      | Some (NInst _) => option_map XTInst (inst cr)
-      | Some (NComp _ _) => option_map (fun ie => XTComp (fst ie) (snd ie)) (comp cr)
-      | _ => None
-      end
-    end
+  | S f => spec_tree_body (spec_tree f g) (S f) g e
   end.
 
 (** the converted kind denotes the tree of the validator entity *)
